@@ -618,6 +618,29 @@ func (w *World) extraObligations(run *checkRun) {
 			o.Fn = "footprint"
 			run.items = append(run.items, workItem{fr, o})
 		}
+		// the frame obligations of the entry points' own contracts: everything an entry point writes is one of its
+		// arguments' objects (assigns clauses) or was allocated by the call - memory that is reachable only from
+		// option values or captured by closures is covered here, not by the package-level sweep
+		for _, name := range []string{modPath + ".Decode", modPath + ".DecodeChained", modPath + ".CheckIntegrity", modPath + ".DecodeHeader", modPath + ".DecodeHeaderAndFileID", "(*" + modPath + ".decoder).decode", modPath + ".Encode"} {
+			c, ok := w.Contracts[name]
+			if !ok || c.Fn == nil {
+				continue
+			}
+			vfr := w.verifyFunction(c)
+			run.results = append(run.results, vfr)
+			if vfr.Outside != "" {
+				run.outside = append(run.outside, vfr.Fn+": "+vfr.Outside)
+			}
+			for _, t := range vfr.Trusted {
+				run.trusted[t] = true
+			}
+			for _, o := range vfr.Obls {
+				if o.Kind == "frame" || o.Kind == "loop-frame" {
+					o.Props = append(append([]string(nil), o.Props...), run.prop)
+					run.items = append(run.items, workItem{vfr, o})
+				}
+			}
+		}
 		var ext []string
 		for e := range fp.externals {
 			ext = append(ext, e)
@@ -632,6 +655,42 @@ func (w *World) extraObligations(run *checkRun) {
 		w.regenObligation(run)
 	case "C03":
 		w.routerObligations(run)
+	case "C18":
+		// every container that holds a message type with component fields expands it when routing
+		fr := &FuncResult{Fn: "routers"}
+		run.results = append(run.results, fr)
+		for _, rt := range w.routerTypes() {
+			for _, o := range w.routerExpandObligations(rt, run.prop) {
+				run.items = append(run.items, workItem{fr, o})
+			}
+		}
+	case "C14":
+		// dyncrc16 is specified completely: every function and method of the package has a contract, so a new way
+		// of feeding the checksum cannot appear unverified
+		fr := &FuncResult{Fn: "dyncrc16"}
+		run.results = append(run.results, fr)
+		var names []string
+		for fn := range w.AllFuncs {
+			if fn.Pkg == nil || fn.Pkg.Pkg.Path() != modPath+"/dyncrc16" || len(fn.Blocks) == 0 || fn.Synthetic != "" || fn.Name() == "init" || fn.Parent() != nil {
+				continue
+			}
+			if strings.HasSuffix(w.Fset.Position(fn.Pos()).Filename, "zz_govc_overlay.go") {
+				continue // the compiled form of the contracts themselves
+			}
+			names = append(names, fn.String())
+		}
+		sort.Strings(names)
+		for _, n := range names {
+			gc := groundCheck{name: "contract-coverage." + n, ok: true}
+			if _, ok := w.Contracts[n]; !ok {
+				gc.ok = false
+				gc.why = n + " has no contract: the package is meant to be specified completely (a function that touches the checksum state outside the verified ones is outside the proof)"
+			}
+			o := w.groundObligation(run.prop, gc)
+			o.Kind = "coverage"
+			o.Fn = "dyncrc16"
+			run.items = append(run.items, workItem{fr, o})
+		}
 	case "C16":
 		fr := &FuncResult{Fn: "noninterference"}
 		run.results = append(run.results, fr)
